@@ -62,6 +62,12 @@ const uint8_t* TECMP::CanPayload::getData() const
     return nullptr;
 }
 
+bool TECMP::CanPayload::isValidPayload(const uint8_t* data, const size_t size)
+{
+    auto header = reinterpret_cast<const Header*>(data);
+    return (size >= sizeof(Header) && header->getDlc() <= size - sizeof(Header));
+}
+
 const TECMP::CanPayload::Header* TECMP::CanPayload::getHeader() const
 {
     return reinterpret_cast<const Header*>(payloadData.data());
